@@ -44,6 +44,8 @@ class Deriv:
         """bindings introduced under field `f` of a struct pattern over `adt_suffix` get the tag f (syntax-field
         provenance that does not depend on what the locals are called)"""
         self.tagged = getattr(self, "tagged", {})
+        self.field_adt = adt_suffix
+        self.field_names = tuple(fields)
         for n in walk(tree["body"]):
             if n["k"] == "P.Struct" and (n.get("def") or "").endswith(adt_suffix):
                 for fl in n["fields"]:
@@ -57,6 +59,10 @@ class Deriv:
         out = set()
         if expr is None:
             return out
+        for x in walk(expr):
+            # a field read `u.renamed` on a value of a tagged struct type carries the field's tag as well
+            if x["k"] == "Field" and (x.get("adt") or "").endswith(getattr(self, "field_adt", "\0")) and x["name"] in getattr(self, "field_names", ()):
+                out.add(x["name"])
         for name, lid in lids_in(expr):
             out |= getattr(self, "tagged", {}).get(lid, set())
             if lid in self.src and lid not in seen and depth < 8:
@@ -249,20 +255,22 @@ def run(cx, rep):
                     table_tys.add(fl["ty"])
         for g, tree in sorted(trees, key=lambda t: t[0].id):
             D = Deriv(tree)
+            # provenance by FIELD of UnresolvedExport { name, renamed }: read as `u.renamed` or bound by destructuring
+            D.tag_fields(tree, "UnresolvedExport", ("name", "renamed"))
             for c in walk(tree["body"]):
                 if c["k"] == "MethodCall" and c["method"] in ("insert_type", "insert_value", "insert_unknown"):
+                    tg = D.tags(c["args"][0])
+                    if not tg and not any(x["k"] == "P.Struct" and (x.get("def") or "").endswith("UnresolvedExport") for x in walk(tree["body"])) \
+                            and not any(x["k"] == "Field" and (x.get("adt") or "").endswith("UnresolvedExport") for x in walk(tree["body"])):
+                        continue      # registrations that do not come from an unresolved export (other binder code)
                     n_ins += 1
-                    fp = D.field_paths(c["args"][0])
-                    bases = {p.rsplit(".", 1)[0] for p in fp if p.endswith(".renamed")}
-                    rep.ob("C09.1", "bind/%s-key" % c["method"], bool(bases) and not any(b + ".name" in fp for b in bases),
-                           "%s registers an export under %s; it must be the exported (renamed) name" % (g.name, sorted(fp)), "%s:%s" % (g.file, c["line"]))
+                    rep.ob("C09.1", "bind/%s-key" % c["method"], "renamed" in tg and "name" not in tg,
+                           "%s registers an export under a key derived from UnresolvedExport.%s; it must be the exported (renamed) name" % (g.name, sorted(tg)), "%s:%s" % (g.file, c["line"]))
                 if c["k"] == "MethodCall" and c["method"] == "get" and (c.get("recv_ty") or "").replace("&mut ", "").lstrip("&") in table_tys:
                     n_get += 1
-                    fp = D.field_paths(c["args"][0])
-                    bases = {p.rsplit(".", 1)[0] for p in fp if p.endswith(".name") and p.rsplit(".", 1)[0] + ".renamed" not in fp}
-                    unresolved_bases = {p.rsplit(".", 1)[0] for p in fp if p.endswith(".renamed")}
-                    rep.ob("C09.1", "bind/local-lookup-key", not unresolved_bases and bool(bases),
-                           "local declarations must be looked up by the original name (derives from %s)" % sorted(fp), "%s:%s" % (g.file, c["line"]))
+                    tg = D.tags(c["args"][0])
+                    rep.ob("C09.1", "bind/local-lookup-key", "name" in tg and "renamed" not in tg,
+                           "local declarations must be looked up by the original name (key derives from UnresolvedExport.%s)" % sorted(tg), "%s:%s" % (g.file, c["line"]))
                 if c["k"] == "Match" and (c.get("scrut_adt") or "").endswith("ImportReference"):
                     ms.append((g, c))
         rep.floor("C09.1", "export registrations in parse_and_bind", n_ins, 7)
@@ -415,6 +423,38 @@ def run(cx, rep):
         rep.ob("C09.6", "ts_identifier/variants", carrying <= seen_v,
                "TypeAddress::ts_identifier decides whether a printed name needs its file prefix by looking at the other names, but ignores the %s variant(s) of RuntypeName, which also carry a file address: same-named declarations of different files then print the same identifier and collapse" % sorted(carrying - seen_v),
                tis[0].loc(), sample={"address_carrying_variants": sorted(carrying), "considered": sorted(seen_v)})
+    # ---------------------------------------------------------------- C09.8
+    rep.rule("C09.8", "an expression taken from another module's default export is interpreted in that module")
+    # `export default <expr>` is recorded with the anchor of the exporting file.  Whoever takes the expression out of
+    # the record (pattern over SymbolExportDefault::Expr { export_expr, anchor }) and hands it on must hand on the file
+    # of THAT anchor: with the importer's file, identifiers inside the expression are resolved as locals of the
+    # importing module (a same-named binding there is silently used, or the name is reported missing).
+    n_de = 0
+    for g in sorted(F.hir):
+        f = F.fns.get(g)
+        if f is None or "/src/frontend/" not in (f.file or ""):
+            continue
+        tree = F.hir[g]
+        if not any(x["k"] == "P.Struct" and (x.get("def") or "").endswith("SymbolExportDefault::Expr") for x in walk(tree["body"])):
+            continue
+        D = Deriv(tree)
+        D.tag_fields(tree, "SymbolExportDefault::Expr", ("export_expr", "anchor"))
+        D.field_adt = "\0"     # only pattern-bound provenance here
+        for c in walk(tree["body"]):
+            if c["k"] not in ("Call", "MethodCall"):
+                continue
+            args = ([c["recv"]] + c["args"]) if c["k"] == "MethodCall" else c["args"]
+            if not any("export_expr" in D.tags(a) for a in args):
+                continue
+            ctx_args = [a for a in args if re.search(r"BffFileName|Anchor", a.get("ty") or "") and "export_expr" not in D.tags(a)]
+            if not ctx_args:
+                continue
+            n_de += 1
+            ok = all("anchor" in D.tags(a) for a in ctx_args)
+            rep.ob("C09.8", "%s/%s" % (f.id.rsplit("::", 1)[-1] + "@" + ((f.impl_self or f.trait_default or "").split("<")[0].rsplit("::", 1)[-1]), (c.get("method") or (c.get("callee") or "?").rsplit("::", 1)[-1])), ok,
+                   "%s passes the expression of another module's `export default` on together with a file / anchor that does not come from the export record: the expression is then typed with the IMPORTING module's bindings" % f.id,
+                   "%s:%s" % (f.file, c["line"]), sample={"fn": f.id, "call": c.get("method") or c.get("callee")})
+    rep.floor("C09.8", "hand-overs of a default-export expression", n_de, 1)
     # ---------------------------------------------------------------- C09.7
     rep.rule("C09.7", "the file part of a disambiguated name is cut at a LOWER bound of the prefixes shared with the other files")
     # by role: fn(&BffFileName, &[TypeAddress]) -> String.  The cut index must not exceed the common prefix with ANY other
